@@ -26,6 +26,24 @@ def convert_slice(_slice: Slice) -> Call:
     )
 
 
+def convert_index(_index: expr) -> expr:
+    """
+    Slices are only legal directly inside brackets,
+    `a[1:2, 3]` is indexed by `(slice(1, 2, None), 3)`
+    """
+    if isinstance(_index, Slice):
+        return convert_slice(_index)
+    if isinstance(_index, Tuple):
+        return Tuple(
+            elts=[
+                convert_slice(_elt) if isinstance(_elt, Slice) else _elt
+                for _elt in _index.elts
+            ],
+            ctx=Load(),
+        )
+    return _index
+
+
 def list_wrapper(nodes: list[expr]) -> expr:
     return List(elts=nodes, ctx=Load())
 
